@@ -106,7 +106,14 @@ func callGFunction(L *LState, tailcall bool) bool {
 	frame := L.currentFrame
 	gfnret := frame.Fn.GFunction(L)
 	if tailcall {
-		L.currentFrame = L.RemoveCallerFrame()
+		if gfnret < 0 {
+			// yield in tail position (return coroutine.yield(...)): keep the caller's frame
+			// and yield like an ordinary call; the OP_RETURN that follows OP_TAILCALL then
+			// returns the values passed to the next resume
+			frame.ReturnBase = frame.Base
+		} else {
+			L.currentFrame = L.RemoveCallerFrame()
+		}
 	}
 
 	if gfnret < 0 {
